@@ -266,6 +266,10 @@ impl<'a, W: fmt::Write> JsFunctionScopeWriter<'a, W> {
             write!(&mut self.w, ";")?;
         }
         write!(&mut self.w, "{}", content)?;
+        if !content.ends_with('\n') {
+            // (the content may end in a line comment)
+            write!(&mut self.w, "\n")?;
+        }
         Ok(())
     }
 
